@@ -64,6 +64,7 @@ type RootCtx struct {
 	allocSites    int
 	pendingRefs   []*Term
 	boundedK      int // >0: bounded instance search, loops unrolled K times
+	sentinels     []*Term
 	top           *FnCtx
 }
 
